@@ -747,7 +747,7 @@ func LeanPart(repo, part string) (string, error) {
 	}
 	order, types, methods := x.order, x.types, x.methods
 	var sb strings.Builder
-	sb.WriteString("import TongoModel.Tl.BindingsMatch\nimport TongoGen.LiteApi\n")
+	sb.WriteString("import TongoModel.Tl.WaitBindings\nimport TongoGen.LiteApi\n")
 	sb.WriteString("/-! GENERATED by harness/cmd/extract (translator X7) from liteclient/generated.go and liteclient/extensions.go — do not edit.\n")
 	sb.WriteString("Every generated struct with the step sequences of its MarshalTL / UnmarshalTL, the client methods, the request\ndecoder table; and one matcher obligation per declaration of the regenerated schema. -/\n")
 	sb.WriteString("namespace Tongo.Gen\nopen Tongo.Tl Tongo.Tl.Bind\n\n")
@@ -797,6 +797,11 @@ func LeanPart(repo, part string) (string, error) {
 	}
 	fmt.Fprintf(&sb, "def tlBindings : Bindings := {\n  types := [%s],\n  methods := [\n%s],\n  decoders := [\n%s] }\n\n",
 		strings.Join(entries, ",\n    "), strings.Join(ml, ",\n"), strings.Join(dl, ",\n"))
+	wc, err := tbWait(repo, x)
+	if err != nil {
+		return "", err
+	}
+	sb.WriteString(wc)
 	if part == "defs" {
 		sb.WriteString("end Tongo.Gen\n")
 		return sb.String(), nil
@@ -864,10 +869,119 @@ func LeanPart(repo, part string) (string, error) {
 	out.WriteString("  rw [show liteApiS.funcs.all (fun f => agreeFuncN liteApiS tlBindings f.ctor) = (liteApiS.funcs.map (·.ctor)).all (agreeFuncN liteApiS tlBindings) by\n    rw [List.all_map]; rfl]\n")
 	out.WriteString("  simp only [liteapis_func_names, List.all_cons, List.all_nil, Bool.and_true, Bool.true_and,\n    " + strings.Join(flemmas, ", ") + "]\n")
 	out.WriteString("  simpa [Bool.and_assoc] using hl\n\n")
+	out.WriteString("/-- regenerated obligation: the literals of the hand-written Wait methods of client.go are the ids of the schema -/\n")
+	out.WriteString("theorem wait_consts_agree : waitAgree liteApiS waitConsts = true := by decide +kernel\n\n")
 	out.WriteString("/-- regenerated obligation: ALL of generated.go matches ALL of lite_api.tl -/\n")
 	out.WriteString("theorem bindings_agree : agreeAll liteApi tlBindings = true := by\n  rw [liteapi_literal]; exact bindings_agree_literal\n\n")
 	out.WriteString("end Tongo.Gen\n")
 	return out.String(), nil
+}
+
+
+// ------------------------------------------------------------------- hand-written request builders of client.go
+
+var (
+	reWaitSeqno = regexp.MustCompile(`^\{ data := make\(\[\]byte, 0, 12\) data = binary\.LittleEndian\.AppendUint32\(data, magicLiteServerWaitMasterchainSeqno\) data = binary\.LittleEndian\.AppendUint32\(data, seqno\) data = binary\.LittleEndian\.AppendUint32\(data, timeout\) resp, err := c\.liteServerRequest\(ctx, data\) if err != nil \{ return err \} if len\(resp\) < 4 \{ return fmt\.Errorf\("not enough bytes for tag"\) \} tag := binary\.LittleEndian\.Uint32\(resp\[:4\]\) if tag == (0x[0-9a-f]+) \{ var errRes LiteServerErrorC if err = tl\.Unmarshal\(bytes\.NewReader\(resp\[4:\]\), &errRes\); err != nil \{ return err \} if errRes\.Code == 0 \{ return nil \} return errRes \} return fmt\.Errorf\("invalid tag"\) \}$`)
+	reWaitBlock = regexp.MustCompile(`^\{ var \( mc int = -1 uintMc uint32 = uint32\(mc\) \) request := (\w+)\{ Mode: (\d+), Id: (\w+)\{ Workchain: uintMc, Shard: (0x[0-9a-f]+), Seqno: seqno, \}, \} data := make\(\[\]byte, 0, 38\) data = binary\.LittleEndian\.AppendUint32\(data, magicLiteServerWaitMasterchainSeqno\) data = binary\.LittleEndian\.AppendUint32\(data, seqno\) data = binary\.LittleEndian\.AppendUint32\(data, timeout\) payload, err := tl\.Marshal\(struct \{ tl\.SumType Req (\w+) ` + "`" + `tlSumType:"([0-9a-f]{8})"` + "`" + ` \}\{SumType: "Req", Req: request\}\) if err != nil \{ return res, err \} data = append\(data, payload\.\.\.\) resp, err := c\.liteServerRequest\(ctx, data\) if err != nil \{ return res, err \} if len\(resp\) < 4 \{ return res, fmt\.Errorf\("not enough bytes for tag"\) \} tag := binary\.LittleEndian\.Uint32\(resp\[:4\]\) if tag == (0x[0-9a-f]+) \{ var errRes LiteServerErrorC if err = tl\.Unmarshal\(bytes\.NewReader\(resp\[4:\]\), &errRes\); err != nil \{ return res, err \} return res, errRes \} if tag == (0x[0-9a-f]+) \{ err = tl\.Unmarshal\(bytes\.NewReader\(resp\[4:\]\), &res\) return res, err \} return res, fmt\.Errorf\("invalid tag"\) \}$`)
+)
+
+// tbWait: (*Client).WaitMasterchainSeqno / WaitMasterchainBlock of liteclient/client.go. Both bodies must have EXACTLY the
+// statement sequence of the repository (one regular expression per body over the printer-normalised text); the
+// literals are what is extracted: the prefix id constant, the tag literals, the request struct literal.
+func tbWait(repo string, x *Extracted) (string, error) {
+	file, err := parser.ParseFile(tbFset, filepath.Join(repo, "liteclient", "client.go"), nil, 0)
+	if err != nil {
+		return "", err
+	}
+	var prefix string
+	var ms, mb []string
+	var resType string
+	for _, d := range file.Decls {
+		switch d := d.(type) {
+		case *ast.GenDecl:
+			if d.Tok != token.CONST {
+				continue
+			}
+			for _, sp := range d.Specs {
+				vs := sp.(*ast.ValueSpec)
+				for i, n := range vs.Names {
+					if n.Name == "magicLiteServerWaitMasterchainSeqno" && i < len(vs.Values) {
+						prefix = tbNorm(vs.Values[i])
+					}
+				}
+			}
+		case *ast.FuncDecl:
+			if d.Recv == nil || tbNorm(d.Recv.List[0].Type) != "*Client" {
+				continue
+			}
+			switch d.Name.Name {
+			case "WaitMasterchainSeqno":
+				if tbNorm(d.Type) != "func(ctx context.Context, seqno uint32, timeout uint32) error" {
+					return "", fmt.Errorf("WaitMasterchainSeqno: signature %s", tbNorm(d.Type))
+				}
+				ms = reWaitSeqno.FindStringSubmatch(tbNorm(d.Body))
+				if ms == nil {
+					return "", fmt.Errorf("WaitMasterchainSeqno: body outside the translated shape: %s", tbNorm(d.Body))
+				}
+			case "WaitMasterchainBlock":
+				m := regexp.MustCompile(`^func\(ctx context\.Context, seqno uint32, timeout uint32\) \(res (\w+), err error\)$`).FindStringSubmatch(tbNorm(d.Type))
+				if m == nil {
+					return "", fmt.Errorf("WaitMasterchainBlock: signature %s", tbNorm(d.Type))
+				}
+				resType = m[1]
+				mb = reWaitBlock.FindStringSubmatch(tbNorm(d.Body))
+				if mb == nil {
+					return "", fmt.Errorf("WaitMasterchainBlock: body outside the translated shape: %s", tbNorm(d.Body))
+				}
+			}
+		}
+	}
+	pv, err := strconv.ParseUint(prefix, 0, 32)
+	if err != nil || ms == nil || mb == nil {
+		return "", fmt.Errorf("client.go: prefix constant or a Wait method not found")
+	}
+	if mb[1] != mb[5] {
+		return "", fmt.Errorf("WaitMasterchainBlock: request literal of type %s marshalled as %s", mb[1], mb[5])
+	}
+	// the request struct literal, in the declaration order of the generated structs: fields that the literal does not
+	// set must be pointers (nil = absent)
+	req, id := x.types[mb[1]], x.types[mb[3]]
+	if req == nil || id == nil || req.isSum || id.isSum {
+		return "", fmt.Errorf("WaitMasterchainBlock: unknown request types %s / %s", mb[1], mb[3])
+	}
+	shard, _ := strconv.ParseUint(mb[4], 0, 64)
+	var idv []string
+	for i, n := range id.st.names {
+		switch {
+		case n == "Workchain" && id.st.tys[i] == ".u32":
+			idv = append(idv, ".lit (.num 0xffffffff)") // uint32(int(-1))
+		case n == "Shard" && id.st.tys[i] == ".u64":
+			idv = append(idv, fmt.Sprintf(".lit (.num 0x%x)", shard))
+		case n == "Seqno" && id.st.tys[i] == ".u32":
+			idv = append(idv, ".seqno")
+		default:
+			return "", fmt.Errorf("WaitMasterchainBlock: field %s of %s not set by the literal", n, mb[3])
+		}
+	}
+	var rv []string
+	for i, n := range req.st.names {
+		switch {
+		case n == "Mode" && req.st.tys[i] == ".u32":
+			rv = append(rv, fmt.Sprintf(".lit (.num %s)", mb[2]))
+		case n == "Id" && req.st.tys[i] == fmt.Sprintf("(.named %q)", mb[3]):
+			rv = append(rv, ".tuple ["+strings.Join(idv, ", ")+"]")
+		case strings.HasPrefix(req.st.tys[i], "(.ptr "):
+			rv = append(rv, ".lit .absent")
+		default:
+			return "", fmt.Errorf("WaitMasterchainBlock: field %s of %s not set by the literal and not a pointer", n, mb[1])
+		}
+	}
+	et1, _ := strconv.ParseUint(ms[1], 0, 64)
+	lid, _ := strconv.ParseUint(mb[6], 16, 64)
+	et2, _ := strconv.ParseUint(mb[7], 0, 64)
+	rt, _ := strconv.ParseUint(mb[8], 0, 64)
+	return fmt.Sprintf("/-- the hand-written request builders `(*Client).WaitMasterchainSeqno` / `WaitMasterchainBlock` of liteclient/client.go -/\ndef waitConsts : WaitConsts := {\n  prefixId := 0x%08x, seqnoErrorTag := 0x%08x,\n  lookupRequest := %q, lookupId := 0x%08x, errorTag := 0x%08x, resultTag := 0x%08x, result := %q,\n  req := [%s] }\n\n",
+		pv, et1, mb[1], lid, et2, rt, resType, strings.Join(rv, ", ")), nil
 }
 
 // ------------------------------------------------------------------------------------------------ text form
